@@ -116,3 +116,8 @@ impl Block for SignalSourceFloat {
 }
 /* vim: textwidth=80
  */
+
+#[cfg(rustradio_verif)]
+pub mod verif_access {
+    include!(concat!(env!("RUSTRADIO_VERIF_DIR"), "/access/signal_source.rs"));
+}
